@@ -262,3 +262,28 @@ def build_normrelpath(umod):
         cs.append(Contract('calmjs.parse.utils:normrelpath', params={'base': Str, 'target': Str}, ensures=ens, env=env,
                            notes='isabs(base)=%s isabs(target)=%s' % absolute))
     return cs
+
+
+def build_encode_sourcemap(smod):
+    """sourcemap.encode_sourcemap: the V3 document is exactly {version: 3, file, sources, names, mappings: encode_mappings(mappings)}."""
+    rec = {}
+
+    def enc(e, a, k):
+        rec['arg'] = a[0]
+        rec['out'] = Str.fresh('encoded_mappings')
+        return rec['out']
+
+    class Op(object):
+        def make(self, name):
+            return PObj(object, name=name)
+
+    def doc_is(e, result, filename, sources, names):
+        d = result.val if hasattr(result, 'val') else result
+        if not isinstance(d, dict) or sorted(d) != ['file', 'mappings', 'names', 'sources', 'version']:
+            return False
+        return (d['version'] == 3 and d['file'] is filename and d['sources'] is sources and d['names'] is names
+                and d['mappings'] is rec.get('out'))
+    env = {'__reset__': rec.clear, 'encode_mappings': PExt('vlq.encode_mappings', enc), 'doc_is': Helper(doc_is),
+           'encoded_arg': Helper(lambda e: rec.get('arg'))}
+    return [Contract(MODULE + ':encode_sourcemap', params={'filename': Str, 'mappings': Op(), 'sources': Op(), 'names': Op()},
+                     ensures=['doc_is(result, filename, sources, names)', 'encoded_arg() is mappings'], env=env)]
